@@ -487,6 +487,10 @@ func (r *hubRig) probe(name string, args []any) {
 		if f != nil {
 			f(node, k)
 		}
+	case "ship.ShipConnection.CloseConnection":
+		if conn, ok := args[0].(api.ShipConnectionInterface); ok && conn != nil {
+			r.x.Ev("close-entered", node, fmt.Sprintf("conn%d", r.connID(conn)), 0)
+		}
 	case "hub.Hub.HandleConnectionClosed":
 		completed, _ := args[2].(bool)
 		c := 0
